@@ -257,6 +257,58 @@ def part_patterns(res, rng, tier, n, long_patterns=True):
             res.sample({"part": "pattern", **case, "image_hex": image.hex()[:64]})
 
 
+def part_attached(res, rng):
+    """(1) A song with several DISTINCT patterns that have the same header (shape, name, colours, position) and different cells:
+    each pattern's image is in the file and loads back.  (2) The sub-field setters of notes that sit in a pattern attached to
+    a project, addressing a module that exists: the column takes the 8 bits given, whatever that module is."""
+    import rv.api as api
+    from rv.note import NOTECMD
+    vals = sorted({int(m) for m in NOTECMD})
+    for k in range(6):
+        p = api.Project()
+        p.new_module(api.m.Amplifier)
+        images = []
+        n_pat = rng.randint(2, 4)
+        tracks, lines = rng.randint(1, 4), rng.randint(1, 6)
+        for j in range(n_pat):
+            q = api.Pattern(tracks=tracks, lines=lines, name="same", x=8, y=0)
+            img = b"".join(ref_cell(rng.choice(vals), rng.randint(0, 129), rng.randrange(65536), rng.randrange(65536), rng.randrange(65536)) for _ in range(tracks * lines))
+            q.raw_data = img
+            images.append(img)
+            p.attach_pattern(q)
+        res.count("songs_with_equal_pattern_headers")
+        case = {"part": "equal-headers", "patterns": n_pat, "shape": [tracks, lines]}
+        try:
+            raw = p.read()
+            back = api.read_sunvox_file(BytesIO(raw))
+        except Exception as e:
+            res.violation(f"C12:equal-headers-raises:{type(e).__name__}", f"{e!r}", case)
+            continue
+        pdta = [c[1] for c in iffparse.parse(raw) if c[0] == b"PDTA"]
+        got = [getattr(q, "raw_data", None) if isinstance(q, api.Pattern) else f"<{type(q).__name__}>" for q in back.patterns]
+        if pdta != images or got != images:
+            res.violation("C12:pattern-image-file", f"{n_pat} distinct patterns with equal headers and different cells: {len(pdta)} PDTA chunks written, loaded as "
+                                                    f"{[g if isinstance(g, str) else (g == images[i]) for i, g in enumerate(got)]}", case)
+    p = api.Project()
+    for cls_ in (api.m.Amplifier, api.m.Lfo, api.m.MetaModule, api.m.Sampler):
+        p.new_module(cls_)
+    pat = api.Pattern(tracks=2, lines=2)
+    p.attach_pattern(pat)
+    n = pat.data[0][0]
+    for module in (0, 1, 2, 3, 4, 5, 200):
+        n.module = module
+        for v in (0, 1, 9, 0x0A, 0x40, 0x7F, 0x80, 0xFF):
+            for field, other in (("controller", "effect"), ("effect", "controller"), ("val_xx", "val_yy"), ("val_yy", "val_xx")):
+                n.ctl, n.val = 0x1234, 0x5678
+                keep = getattr(n, other)
+                setattr(n, field, v)
+                res.count("attached_note_setter_checks")
+                if getattr(n, field) != v or getattr(n, other) != keep:
+                    res.violation(f"C12:setter:{field}:attached", f"note in an attached pattern addressing module position {module}: {field} = {v:#x} reads {getattr(n, field):#x} "
+                                                                 f"({other} {keep:#x} -> {getattr(n, other):#x})", {"part": "attached-setters", "module": module, "field": field, "value": v})
+                    return
+
+
 def part_pattern_sequences(res, rng, n):
     """History checker for one pattern: assign an image, clear(), edit a cell, bulk edit, read - in any order, with
     a list-of-cells model.  Reads are deliberately NOT made after every step: some implementations decode lazily and a
@@ -572,6 +624,7 @@ def run_shard(spec_, res):
         part_notes(res, rng, spec_["tier"])
     elif part == "patterns":
         part_patterns(res, rng, spec_["tier"], spec_["n"], spec_.get("long_patterns", True))
+        part_attached(res, rng)
         part_pattern_sequences(res, rng, spec_["n"] * 6)
     elif part == "vis":
         part_vis(res, spec_["level_mode"], spec_["tier"], rng)
